@@ -192,13 +192,13 @@ Proof.
     destruct (negb _); injection Eh as <- <-; [apply Rel_refl|].
     set (c1 := c <| c_token := o_token oo |> <| c_key := Some (o_key oo) |> <| c_status := CONNECTING |>).
     apply (Rel_trans S c c1); [apply Rel_upd; reflexivity|].
-    apply Rel_send_type. apply QS_sys; [discriminate|exact I].
+    apply Rel_send_type. apply QS_sys; [reflexivity|exact I].
   - destruct (o_parse oo =? 6); [injection Eh as <- <-; apply Rel_upd; reflexivity|].
     destruct (negb _); injection Eh as <- <-; [apply Rel_refl|].
     set (c1 := c <| c_token := o_token oo |> <| c_key := Some (o_key oo) |>).
     apply (Rel_trans S c c1); [apply Rel_upd; reflexivity|].
     apply (Rel_trans S c1 (send_type c1 CHALLENGE_RESP (o_reply oo) RNone IChallenge));
-      [apply Rel_send_type; apply QS_sys; [discriminate|exact I]|apply Rel_upd; reflexivity].
+      [apply Rel_send_type; apply QS_sys; [reflexivity|exact I]|apply Rel_upd; reflexivity].
   - destruct (negb _); [injection Eh as <- <-; apply Rel_refl|].
     destruct (o_temp_token oo) as [t|]; [|injection Eh as <- <-; apply Rel_refl].
     destruct (t =? o_token oo); injection Eh as <- <-; [apply Rel_upd; reflexivity|apply Rel_refl].
@@ -322,7 +322,7 @@ Proof.
   - injection E as <- <-. apply Hsame; destruct which as [|[[q|q|]|[q|q|]|]|q]; reflexivity.
   - injection E as <- <-. unfold client_hello.
     exists [(CLIENT_HELLO, hello)]. split; [|apply Wnil].
-    eapply TI_upd; [| | | |apply (send_type_TI S' T c CLIENT_HELLO hello RNone IHello); [apply QS_sys; [discriminate|exact I]|exact H]]; reflexivity.
+    eapply TI_upd; [| | | |apply (send_type_TI S' T c CLIENT_HELLO hello RNone IHello); [apply QS_sys; [reflexivity|exact I]|exact H]]; reflexivity.
   - injection E as <- <-. apply Hsame; reflexivity.
   - injection E as <- <-. apply Hsame; reflexivity.
 Qed.
@@ -350,14 +350,6 @@ Definition lab_ok (M : mnet) (vj : lev3) : Prop :=
   | NA _ => True
   end.
 
-Lemma accepts_opens c x d : accepts c x = Some d -> dgram_in x = Some d /\ opens c d = true.
-Proof.
-  unfold accepts. destruct (pre_recv c x) as [[c0 d0]|] eqn:Ep; [|discriminate].
-  destruct (opens c0 d0 && _) eqn:Eg; [|discriminate]. intros H. injection H as <-.
-  destruct (pre_recv_facts _ _ _ _ Ep) as (A & _ & B & _). split; [exact A|].
-  rewrite <- B. apply andb_prop in Eg as [Eg _]. exact Eg.
-Qed.
-
 Lemma fold_mrec_tab T ws : forall st, (forall w, In w ws -> tabw T w) -> (forall j c, In (j, c) (snd st) -> tab T j c) ->
   forall j c, In (j, c) (snd (fold_left mrec (combine ws (map w_seq ws)) st)) -> tab T j c.
 Proof.
@@ -369,7 +361,7 @@ Qed.
 
 Theorem TInv_step e S K M vj : J S K (m_g M) -> SInv M -> TInv M -> wf3_ev e M vj -> lab_ok M vj -> TInv (mstep e M vj).
 Proof.
-  intros HJ [_ HP _] (T & HT & HWire & HD) Hwf0 Hlab. pose proof Hwf0 as [Hwf2 Hwf].
+  intros HJ [_ HP _ _] (T & HT & HWire & HD) Hwf0 Hlab. pose proof Hwf0 as [Hwf2 Hwf].
   destruct vj as [[v l] js]. unfold msg_ev, lab_ok in *. cbn [fst snd] in *. destruct v as [x|x].
   - destruct Hwf2 as [Hop _]. apply ev_open2_eq in Hop. pose proof HJ as [HA _ _ _ _ _ _ _].
     unfold mstep, TInv. cbn [fst snd gstep m_g m_sent m_st].
@@ -434,7 +426,8 @@ Definition short3_ev (e : env) (M : mnet) (vj : lev3) : Prop :=
   match fst (fst vj) with
   | NA x => user_x x
   | NB x => forall d, accepts (nB (g_net (m_g M))) x = Some d ->
-              snd vj = map w_seq (dg_msgs d) /\ raised (snd (step e (nB (g_net (m_g M))) x)) = false
+              snd vj = map w_seq (dg_msgs d) /\
+              (has_hs (dg_msgs d) = true -> raised (snd (step e (nB (g_net (m_g M))) x)) = false)
   end.
 
 Fixpoint short3_run (e : env) (M : mnet) (vs : list lev3) : Prop :=
@@ -450,7 +443,7 @@ Proof.
   destruct vj as [[v l] js]. unfold wf3_ev, wf3x_ev, msg_ev, lab_ok. cbn [fst snd] in *.
   destruct v as [x|x]; [split; [split; [exact Hwf2|exact Hm]|exact I]|].
   split; [split; [exact Hwf2|]|intros d Hd; exact (proj1 (Hm d Hd))].
-  intros d Hd. destruct (Hm d Hd) as [-> Hnr]. split; [rewrite map_length; reflexivity|]. split; [|intros _; exact Hnr].
+  intros d Hd. destruct (Hm d Hd) as [-> Hnr]. split; [rewrite map_length; reflexivity|]. split; [|intros _ Hh; exact (Hnr Hh)].
   destruct (accepts_opens _ _ _ Hd) as [Hdi Ho]. destruct (Hwf2 d Hdi Ho) as [Hin _].
   assert (Hb : len T <= HALF) by (destruct HT as [_ _ D]; lia).
   apply (mwf_short T); auto.
